@@ -74,7 +74,7 @@ def uses_nondyadic(p):
 
 
 def has_tempo_ops(p):
-    return any(op[0] == 'tempo' for r in p['routines'].values()
+    return any(op[0] in ('tempo', 'etempo') for r in p['routines'].values()
                for op in r['body'])
 
 
@@ -187,7 +187,9 @@ def run_rt(case, v):
         raise Reject()
     if m.simultaneous:
         raise Reject()
-    horizon = float(m.last_event) + 1.0
+    load = sum(op[1] for r in p['routines'].values() for op in r['body']
+               if op[0] == 'busy')
+    horizon = float(m.last_event) + 1.0 + load
     tol = TOL_FLOAT if uses_nondyadic(p) else TOL_DYADIC
     jit = 0.0
     outs = []
@@ -213,16 +215,19 @@ def run_rt(case, v):
             v.fail('rt_depends_on_schedule', f'{la} vs {lb}')
     nt = nontrivial_prog(p) and jit > 0
     labels = ['jitter' if jit > 0 else 'no_jitter']
+    if load:
+        labels.append('busy_steps')
+        nt = jit > 0
     if nontrivial_prog(p):
         labels.append('tempo_or_cross_clock')
     return {'nontrivial': nt, 'labels': labels}
 
 
-def rt_cases(nondyadic=False, tempo_ops=False):
+def rt_cases(nondyadic=False, tempo_ops=False, busy=False):
     tape = st.lists(st.integers(0, 11), min_size=0, max_size=60)
     return st.fixed_dictionaries({
         'prog': proggen.timing_program(apps=False, nondyadic=nondyadic,
-                                       tempo_ops=tempo_ops),
+                                       tempo_ops=tempo_ops, busy=busy),
         'tape_a': tape, 'tape_b': tape})
 
 
@@ -231,7 +236,10 @@ def stages(ctx):
         Stage('rt', run_rt, rt_cases(), quick=150, thorough=1500),
         Stage('rt_tempo', run_rt, rt_cases(tempo_ops=True), quick=100,
               thorough=1000),
-        Stage('nrt_tempo', run_nrt, proggen.timing_program(tempo_ops=True),
+        Stage('rt_load', run_rt, rt_cases(busy=True), quick=150,
+              thorough=1500),
+        Stage('nrt_tempo', run_nrt, proggen.timing_program(tempo_ops=True,
+                                                           etempo=True),
               quick=200, thorough=2000),
         Stage('nrt', run_nrt, proggen.timing_program(), quick=600,
               thorough=5000),
